@@ -1,5 +1,6 @@
 import Insim.Lemmas.Customs
 import Insim.Lemmas.Frame
+import Insim.Lemmas.Text
 /-
 C01 — lossless packet round trip.
 The layouts are regenerated from the packet declarations on every run; `all_wf` re-checks, by
@@ -135,6 +136,47 @@ theorem mso_frame_roundtrip (m : Mode) (v : PVal) (f : Bytes) (hr : RepMso v)
     (he : Frame.encode m (writePacket genEnv Gen.Packets.lMso v) = .ok f) :
     Frame.decode m (parsePacket genEnv Gen.Packets.all) f = (.ok (some (Gen.Packets.lMso, v)), []) :=
   frame_roundtrip_any m _ (by decide +kernel) v f (.inr ⟨by decide +kernel, hr⟩) he
+
+/-! ### text fields as typed values
+
+The theorems above treat a text field as its bytes. What the user holds is a `String`; between the two stands the codepage
+layer, whose round trip is C10's subject (`C10.faithful_carets`, under the recorded laws of the ten codecs). Composed
+with the field layer: a text of encodable characters, with no caret that would start a marker and no NUL, that fits its
+field comes back as the same string — for fixed-width fields, for 4-aligned variable fields, and for IS_MSO, whose typed
+`textstart` (a UTF-8 offset into `msg`) is translated to the wire's byte offset and back. -/
+
+open Insim.Cp Insim.Text in
+/-- **typed fixed-width text field** -/
+theorem text_fixed_roundtrip (cp : Mk → CP) (order : List Mk) (ho : ∀ x : Mk, x ∈ order) (L : Props.C10.Laws cp)
+    (LL : Props.C10.LeadLaw cp) (N : NulLaw cp) (n : Nat) (s : Str) (hs : TextOk cp s) (hfit : (toBytes cp order s).length ≤ n) :
+    Cp.toString cp (stripNul (writeStr n 0 (toBytes cp order s))) = s :=
+  fixed_field_roundtrip cp order ho L LL N n s hs hfit
+
+open Insim.Cp Insim.Text in
+/-- **typed variable-width text field** (III MTC BTN ACR, and the text of MSO) -/
+theorem text_aligned_roundtrip (cp : Mk → CP) (order : List Mk) (ho : ∀ x : Mk, x ∈ order) (L : Props.C10.Laws cp)
+    (LL : Props.C10.LeadLaw cp) (N : NulLaw cp) (n : Nat) (s : Str) (hs : TextOk cp s) (hfit : (toBytes cp order s).length ≤ n) :
+    Cp.toString cp (stripNul (writeStr n 4 (toBytes cp order s))) = s :=
+  aligned_field_roundtrip cp order ho L LL N n s hs hfit
+
+open Insim.Cp Insim.Text in
+/-- **IS_MSO as typed values**: message and text start survive `Mso::write` then `Mso::read` -/
+theorem mso_typed (cp : Mk → CP) (order : List Mk) (ho : ∀ x : Mk, x ∈ order) (L : Props.C10.Laws cp)
+    (LL : Props.C10.LeadLaw cp) (N : NulLaw cp) (name text : Str) (hn : TextOk cp name) (hs : TextOk cp (name ++ text))
+    (hts : strLen name < 256) (hfit : (toBytes cp order (name ++ text)).length ≤ 128)
+    (ts : Nat) (body : Bytes) (hw : msoWrite cp order (strLen name) (name ++ text) = some (ts, body)) :
+    msoRead cp ts body = some (strLen name, name ++ text) :=
+  mso_typed_roundtrip cp order ho L LL N name text hn hs hts hfit ts body hw
+
+open Insim.Cp Insim.Text in
+/-- the name's bytes are a prefix of the message's bytes: the wire's TextStart points at a character boundary of the
+encoded text, whatever codepage the name ends in -/
+theorem mso_name_is_prefix (cp : Mk → CP) (order : List Mk) (name text : Str) :
+    (toBytes cp order (name ++ text)).take (toBytes cp order name).length = toBytes cp order name := by
+  rw [toBytes_prefix]; exact List.take_left' rfl
+
+/-! non-vacuity of the typed theorems: `Text.one` satisfies all six laws (`one_laws one_lead one_nul`) and the examples in
+Lemmas/Text.lean run `msoWrite`/`msoRead` on a name with a non-ASCII character -/
 
 /-! non-vacuity: a concrete TINY and a concrete MCI with one car are in the domain -/
 example : Gen.Packets.lTiny ∈ Gen.Packets.all := by decide +kernel
